@@ -64,6 +64,8 @@ pub fn run(rep: &mut Report, tier: &str, seed: u64) {
             let source = gen_source(&mut r, false, ti == 1 && pi % 5 == 0);
             let (info, mi) = export(&loaded.file, &source);
             drv.ask(&sexp::tagged("set-tree", vec![info.to_sexp(&source.src)]));
+            rep.count_n("regex-oracle-questions", table.rx_asked + table.rp_asked);
+            table = OracleTable::new();
             let cfg = RunCfg { lazy: false, globals: supply_globals(&mut r, &loaded.program), debug: None, cancel_at: None };
             let ir = run_impl(&loaded.file, &source.tree, &source.src, &info, &cfg);
             let model = run_model(&mut drv, &mut table, &mi, &cfg);
